@@ -497,6 +497,7 @@ def e5(ck: Check) -> None:
             ck.ob("E5", fm, f.stmt_of(c), True, "unlimited enumeration: the list is complete")
             continue
         ltxt = text(lim)
+        lcanon = text(fm.deref(lim, fm.cfgn(c)))     # the limit may be held in a local
         facts = []
         for d in fm.cfg.dominators(hn):
             if d.kind != "branch" or d.test is None:
@@ -517,7 +518,8 @@ def e5(ck: Check) -> None:
                     return self.generic_visit(n)
 
                 def generic_visit(self, n):
-                    if isinstance(n, ast.expr) and text(n) == ltxt:
+                    if isinstance(n, ast.expr) and (text(n) in (ltxt, lcanon) or (
+                            isinstance(n, ast.Name) and text(fm.deref(n, tnode)) == lcanon)):
                         return ast.Name("L", ast.Load())
                     return super().generic_visit(n)
 
